@@ -224,6 +224,10 @@ package parse
 //@   loop 2 invariant input: sameview(l.input, entry(l.input)) || (ins == nil && l.mode == modeClosed)
 //@   loop 2 invariant st: ins != nil ==> sinv(l) && statepre(ins, l)
 //@   loop 2 decreases ite(ins == nil, 0, measure(ins, l))
+// C04/C05: an interpolated expression is lexed with a bracket count of its own, starting at zero: its closing brace is
+// the one that closes no bracket opened inside it, whatever is open around the string ("(" before the string, or a
+// count left unbalanced by an earlier print)
+//@   loop 2 entry nest: l.parens == 0
 // G1: the token after STRING_OPEN is TEXT (possibly empty) or a terminal error token
 // C14: whatever the quote character, a string that is lexed to its end is STRING_OPEN, at least one TEXT (possibly
 // empty), ..., STRING_CLOSE
